@@ -31,6 +31,17 @@ theorem C02_join_split_roundtrip (name : Bytes) (h : jailElems name ≠ []) :
     splitOn slash (joinSlash (jailElems name)) = jailElems name :=
   splitOn_joinSlash _ h (fun s hs => (jailElems_normal name s hs).2.2.2)
 
+/-- `path.Clean` is idempotent on what `http.Dir` computes: cleaning `Clean("/"+name)` again (as
+`filepath.Join` does) changes nothing, and the elements stay the same. -/
+theorem C02_clean_idem (name : Bytes) :
+    clean (clean (slash :: name)) = clean (slash :: name) ∧
+    jailElems (clean (slash :: name)) = jailElems name := by
+  have h1 : clean (slash :: name) = slash :: joinSlash (jailElems name) := by
+    rw [clean_rooted, jailElems_eq (slash :: name), ← jailElems]
+  constructor
+  · rw [h1]; exact clean_canon _ (jailElems_normal name)
+  · rw [h1, jailElems_eq, cleanElems_canon _ (jailElems_normal name)]
+
 /-- Whatever `http.Dir(root).Open(name)` returns lies inside the root: its canonical path is the
 root's elements followed by the cleaned name's — although the modelled kernel walk honours `..`. -/
 theorem C02_open_inside_root (fs : FS) (root : List Bytes) (name : Bytes) (e : Entry)
